@@ -402,9 +402,10 @@ def cooc_request(case, o, spec=False):
     n = len(o["tokens"])
     base = {"n": n, "nw": bool(case["nw"]), "blocks": blocks}
     if case["kind"] == "multi":
-        return dict(base, op="cooc.multi", docs=o["seqs"])
+        return dict(base, op="cooc.multi", docs=o["seqs"], spec=bool(spec))
     if case["kind"] == "ngram":
-        return dict(base, op="cooc.ngram", seqs=o["seqs"], nsize=case.get("nsize", 2), ndict=o["ndict"])
+        return dict(base, op="cooc.ngram", seqs=o["seqs"], nsize=case.get("nsize", 2), ndict=o["ndict"],
+                    spec=bool(spec))
     if case["kind"] == "timed":
         seqs = [[[t, rat(x)] for t, x in s] for s in o["seqs"]]
     else:
@@ -413,25 +414,33 @@ def cooc_request(case, o, spec=False):
 
 
 def compare_cells(case, cells, resp, what):
-    """model cells (exact rationals) vs implementation cells"""
+    """model cells (exact rationals) vs implementation cells: the cells accumulated by the procedural model
+    (`cells`) and, when the driver evaluated it, the declarative definition itself (`spec_cells`: Cooc.spec /
+    specNgram / specMulti of Model/Cooc.lean, the right-hand sides of the *_events_eq_spec theorems)"""
     if "bad" in resp:
         return [f"{what}: model rejected the request: {resp['bad']}"]
     if "err" in resp:
         return [f"{what}: model raises {resp['err']} where the implementation returned a matrix"]
-    mod = {(r, c): Fraction(v) for r, c, v in resp["cells"]}
     got = {(r, c): v for r, c, v in cells}
     exact = integer_valued(case)
     d = []
-    for key in sorted(set(mod) | set(got)):
-        g, e = got.get(key, 0.0), mod.get(key, Fraction(0))
-        if exact:
-            ok = Fraction(g) == e
-        else:
-            ok = abs(g - float(e)) <= 1e-4 * max(abs(g), abs(float(e))) + 1e-9
-        if not ok:
-            d.append(f"{what}: cell {key}: impl {g!r} model {float(e)!r}")
-            if len(d) >= 3:
-                break
+    sides = [("model", resp["cells"])]
+    if resp.get("spec_cells") is not None:
+        sides.append(("Lean definition (spec)", resp["spec_cells"]))
+    for name, mcells in sides:
+        mod = {(r, c): Fraction(v) for r, c, v in mcells}
+        k = 0
+        for key in sorted(set(mod) | set(got)):
+            g, e = got.get(key, 0.0), mod.get(key, Fraction(0))
+            if exact:
+                ok = Fraction(g) == e
+            else:
+                ok = abs(g - float(e)) <= 1e-4 * max(abs(g), abs(float(e))) + 1e-9
+            if not ok:
+                d.append(f"{what}: cell {key}: impl {g!r} {name} {float(e)!r}")
+                k += 1
+                if k >= 3:
+                    break
     if resp.get("spec_ok") is False:
         d.append(f"{what}: model: procedural events and declarative spec disagree")
     return d
